@@ -210,6 +210,10 @@ func (s *sim) newEvidence(id int, H int64) *evSet {
 		chainID = chainNoNodes
 	case 3:
 		chainID = chainUnsup
+	case 6, 7:
+		chainID = chainHex
+	case 8:
+		chainID = chainHexUpper // same identifier, other spelling: not a supported chain text
 	case 4, 5:
 		app = s.apps[1] // tiny allowance (6 per node and session)
 		if r.Bool() {
@@ -227,7 +231,11 @@ func (s *sim) newEvidence(id int, H int64) *evSet {
 		}
 		e = s.mkChallengeEvidence(id, node, app, chainID, S, et, nLeaves)
 	} else {
-		e = s.mkEvidence(id, node, app, chainID, S, et, nLeaves, r.Chance(1, 9))
+		appText := ""
+		if r.Chance(1, 8) {
+			appText = spell(app, []string{"U", "U", "M"}[r.Intn(3)])
+		}
+		e = s.mkEvidenceSpelled(id, node, app, appText, chainID, S, et, nLeaves, r.Chance(1, 9))
 	}
 	if r.Chance(1, 10) { // declare more relays than the tree holds
 		e.total += int64(1 + r.Intn(3))
@@ -252,7 +260,12 @@ func (s *sim) history(blocks int) {
 			id++
 			e := s.newEvidence(id, H)
 			pool = append(pool, e)
-			if r.Chance(1, 6) {
+			if !e.chal && e.appText == "" && r.Chance(1, 5) {
+				// the same node, application, chain, session and evidence type with the application key spelled differently in
+				// the header and the tokens (signed by the application key): the same session under another store key
+				id++
+				pool = append(pool, s.mkEvidenceSpelled(id, e.node, e.app, spell(e.app, []string{"U", "M"}[r.Intn(2)]), e.chainID, e.S, e.et, len(e.proofs), false))
+			} else if r.Chance(1, 6) {
 				// the same node and session under the other evidence type as well
 				id++
 				et2 := pc.RelayEvidence
@@ -281,6 +294,14 @@ func (s *sim) history(blocks int) {
 				if v == "ok" && provable && r.Chance(1, 2) && len(txs) < 4 {
 					// claim and proof in the same block (possible at the last height of the window)
 					txs = append(txs, s.proofTx(e, "ok", s.requiredIndex(ctx, e, e.total)))
+					if !e.chal && r.Chance(1, 2) && len(txs) < 3 {
+						// ... and the same session claimed and proved once more in that block
+						id++
+						n2 := s.mkEvidenceSpelled(id, e.node, e.app, e.appText, e.chainID, e.S, e.et, []int{5, 6, 9}[r.Intn(3)], false)
+						n2.tried = true
+						pool = append(pool, n2)
+						txs = append(txs, s.claimTx(n2, "ok", &pool), s.proofTx(n2, "ok", s.requiredIndex(ctx, n2, n2.total)))
+					}
 				}
 			case !e.claimed && !e.overwritten && !winOpen && r.Chance(1, 6):
 				txs = append(txs, s.claimTx(e, "ok", &pool)) // early or late
@@ -290,7 +311,7 @@ func (s *sim) history(blocks int) {
 			case e.claimed && winOpen && r.Chance(1, 7):
 				// a second claim under the same key with a different tree (overwrites the first)
 				id++
-				n2 := s.mkEvidence(id, e.node, e.app, e.chainID, e.S, e.et, []int{5, 6, 9, 17}[r.Intn(4)], false)
+				n2 := s.mkEvidenceSpelled(id, e.node, e.app, e.appText, e.chainID, e.S, e.et, []int{5, 6, 9, 17}[r.Intn(4)], false)
 				n2.neverProv = r.Chance(1, 4)
 				pool = append(pool, n2)
 				txs = append(txs, s.claimTx(n2, "ok", &pool))
@@ -375,5 +396,34 @@ func (s *sim) demo() {
 		if off.claimed {
 			break
 		}
+	}
+	// window edge (see C31): at height S + W*B a claim is still accepted and a proof is already
+	// possible, so claim / proof / claim / proof for ONE session fit into one block
+	var edge *chain.Key
+	for i := range s.nodes {
+		if s.n.Height+1 > 16 {
+			break
+		}
+		for s.n.Height+1 < 13 {
+			step()
+		}
+		sc := s.mkEvidence(10+i, s.nodes[i], s.apps[0], chainOK, 9, pc.RelayEvidence, 5, false)
+		pool = append(pool, sc)
+		step(s.claimTx(sc, "ok", &pool))
+		if sc.claimed {
+			edge = &s.nodes[i]
+			break
+		}
+	}
+	for s.n.Height < 16 {
+		step()
+	}
+	if edge != nil {
+		a := s.mkEvidence(4, *edge, s.apps[0], chainOK, 9, pc.RelayEvidence, 5, false)
+		b := s.mkEvidence(5, *edge, s.apps[0], chainOK, 9, pc.RelayEvidence, 6, false)
+		pool = append(pool, a, b)
+		ctx := s.cur(s.n.Height+1, s.n.LastBlockID.Hash, tm.Add(time.Minute))
+		step(s.claimTx(a, "ok", &pool), s.proofTx(a, "ok", s.requiredIndex(ctx, a, a.total)),
+			s.claimTx(b, "ok", &pool), s.proofTx(b, "ok", s.requiredIndex(ctx, b, b.total)))
 	}
 }
